@@ -59,7 +59,9 @@ def strip(scen):
     return scen[:-1] if scen and scen[-1].get("act") == "Reset" else scen
 
 
-def validate_all(ctx, lines, pid, want_gas_only=False):
+def validate_all(ctx, lines, pid, want_gas_only=False, key_filter=None):
+    """key_filter (full-state mode): predicate on the violation key; rejected scenarios whose key it refuses are
+    noted, not reported (used by C10 to judge only blocks that contain an out-of-gas transaction)."""
     cfg = "BaseAppTrace_gas.cfg" if want_gas_only else "BaseAppTrace.cfg"
     scens = [s for _, s in tracelib.split_scenarios(lines)]
     remaining = list(scens)
@@ -104,6 +106,8 @@ def validate_all(ctx, lines, pid, want_gas_only=False):
             if key == "gas":
                 ctx.notes.append("scenario rejected by the gas model (attributed to C10): " + what)
                 ctx.add("scenarios_left_to_C10", 1)
+            elif key_filter is not None and not key_filter(key):
+                ctx.notes.append("state mismatch outside this property's clause (left to C02): " + key)
             else:
                 ctx.violation(key, what, {"scenario": bad, "failed_at": kin, "block": blk})
         remaining = remaining[idx + 1:]
